@@ -1,9 +1,9 @@
 #!/bin/bash
-# usage: soak.sh <tier> <seed...> : runs every check at the given seeds, prints only non-clean results
+# usage: soak.sh <tier> <seed...> : runs every check (or those in SOAK_CHECKS) at the given seeds, prints only non-clean results
 tier="$1"; shift
 cd "$(dirname "$0")"
 for seed in "$@"; do
-  for c in C01 C02 C03 C04 C05 C06 C07 C08 C09 C10 C11 C12 C13 C14 C15 C16 C17 C18 C19 C20; do
+  for c in ${SOAK_CHECKS:-C01 C02 C03 C04 C05 C06 C07 C08 C09 C10 C11 C12 C13 C14 C15 C16 C17 C18 C19 C20}; do
     out=$(VERIF_SEED=$seed ./check $c --tier $tier --no-evidence 2>&1); rc=$?
     echo "seed=$seed $c rc=$rc $(echo "$out" | grep 'tier=' | sed 's/.*evaluations/evaluations/')"
     if [ $rc -ne 0 ]; then echo "$out" | grep -v '^KNOWN' | head -12; fi
